@@ -1,5 +1,243 @@
-"""C12 — bounded stand-in for now (runtime contracts); deductive obligations are added in contracts/c12_proof when available."""
-BOUNDED_ONLY = True
-RT = True
+"""C12 — kernel centring and normalisation equal centring and scaling in feature space.
+
+Real functions: KernelNormalizer.fit / transform, SparseKernelCenterer.fit / transform (skmatter/preprocessing/_data.py), all with_center / with_trace
+combinations, with and without sample weights.
+
+Gram layer: a kernel is K(i, j) = <PHI(fr, i), PHI(fc, j)> for two families of feature vectors (uninterpreted sort Vec with a symmetric bilinear inner product).
+External contract of np.average on such a matrix (definition of the weighted mean vector + bilinearity): averaging over the row index with weights w gives
+<MEANV(w, fr), PHI(fc, j)>, over the column index <PHI(fr, i), MEANV(w, fc)>; averaging a vector <u, PHI(fc, j)> gives <u, MEANV(w, fc)>.  Weights are
+identified by a token that is unchanged by positive rescaling (np.average normalises).  np.trace / np.linalg.pinv / @ are recorded symbolically: the
+contract states WHICH matrix the trace is taken of (entry by entry), the trace-n statement is then linearity of the trace."""
+from pyvc.api import *
+from pyvc import veclayer as VL, skstubs
+from pyvc.veclayer import Vec, dot
+from pyvc.engine import ExtNS, ExtClass, Opaque
+
+KN = 'skmatter.preprocessing._data.KernelNormalizer'
+SK = 'skmatter.preprocessing._data.SparseKernelCenterer'
+i_, j_ = Int('i'), Int('j')
+PHI = z3.Function('PHI', IntS, IntS, Vec)             # PHI(family, index): feature vector
+MEANV = z3.Function('MEANV', IntS, IntS, Vec)         # MEANV(weight token, family): weighted mean feature vector of a family
+VSUB = z3.Function('VSUB', Vec, Vec, Vec)             # difference of two feature vectors
+TRAIN, TEST, ACTIVE = 1, 2, 3
+
+def gram_axioms():
+    a, b, c, d = z3.Consts('a!g b!g c!g d!g', Vec)
+    return VL.axioms() + [ForAll([a, b, c, d], dot(VSUB(a, b), VSUB(c, d)) == dot(a, c) - dot(a, d) - dot(b, c) + dot(b, d), patterns=[dot(VSUB(a, b), VSUB(c, d))]),
+                          ForAll([a, b, c], dot(VSUB(a, b), c) == dot(a, c) - dot(b, c), patterns=[dot(VSUB(a, b), c)])]
+
+def gram(I, fr, fc, shape):
+    return I.new_arr(ArrVal(shape, lambda i, j: dot(PHI(fr, tz(i)), PHI(fc, tz(j))), RealS, ('gram', fr, fc)))
+
+def np_average(I, a, axis=None, weights=None, **kw):
+    npstubs.used('np.average of a Gram matrix (weighted mean vector + bilinearity of the inner product)')
+    A = I.A(a); tok = VL.weight_token(I, weights)
+    if weights is not None and axis is not None:
+        W = I.A(weights)
+        sd = npstubs.same_dim(W.shape[0], A.shape[axis])
+        if sd is False: raise RaiseEx('ValueError')
+        if sd is None: I.ob('shape:np.average weights match the averaged axis', tz(W.shape[0]) == tz(A.shape[axis]), kind='shape')
+    if weights is not None and axis is None and A.ndim == 1:
+        W = I.A(weights)
+        sd = npstubs.same_dim(W.shape[0], A.shape[0])
+        if sd is False: raise RaiseEx('ValueError')
+        if sd is None: I.ob('shape:np.average weights match the vector', tz(W.shape[0]) == tz(A.shape[0]), kind='shape')
+    I.cur.setdefault('avg_calls', []).append((a, weights, axis))
+    if A.tag and A.tag[0] == 'gram' and A.ndim == 2:
+        fr, fc = A.tag[1], A.tag[2]
+        if axis == 0: return I.new_arr(ArrVal((A.shape[1],), lambda j: dot(MEANV(tok, fr), PHI(fc, tz(j))), RealS, ('gram1', MEANV(tok, fr), fc)))
+        if axis == 1: return I.new_arr(ArrVal((A.shape[0],), lambda i: dot(PHI(fr, tz(i)), MEANV(tok, fc)), RealS, ('gram1r', fr, MEANV(tok, fc))))
+    if A.tag and A.tag[0] == 'gram1' and axis in (None, 0):
+        return dot(A.tag[1], MEANV(tok, A.tag[2]))
+    if A.tag and A.tag[0] == 'gram1r' and axis in (None, 0):
+        return dot(MEANV(tok, A.tag[1]), A.tag[2])
+    raise Unsupported("np.average of an array that is not a Gram matrix")
+
+def np_trace(I, a, **kw):
+    npstubs.used('np.trace (recorded symbolically)')
+    r = I.fresh('trace', RealS)
+    I.cur.setdefault('traces', []).append((I.A(a), r, a))
+    return r
+
+def np_pinv(I, a, rcond=None, *args, **kw):
+    npstubs.used('np.linalg.pinv (recorded symbolically)')
+    A = I.A(a)
+    r = I.fresh_arr('pinv', (A.shape[1], A.shape[0]))
+    I.st.heap[r.id] = ArrVal(I.A(r).shape, I.A(r).elem, RealS, ('pinv', A, rcond, a))
+    return r
+
+def matmul_hook(I, a, b, what):
+    if not I.cur.get('c12'): return None
+    if not (isinstance(a, ArrRef) and isinstance(b, ArrRef)): return None
+    A, B = I.A(a), I.A(b)
+    if A.ndim != 2 or B.ndim != 2: return None
+    npstubs.used('@ (recorded symbolically)')
+    sd = npstubs.same_dim(A.shape[1], B.shape[0])
+    if sd is False: raise RaiseEx('ValueError')
+    if sd is None: I.ob(f'shape:{what}', tz(A.shape[1]) == tz(B.shape[0]), kind='shape')
+    r = I.fresh_arr('mm', (A.shape[0], B.shape[1]))
+    I.st.heap[r.id] = ArrVal(I.A(r).shape, I.A(r).elem, RealS, ('mm', A, B))
+    return r
+
+def validate_data(I, obj):
+    def f(I2, X='no_validation', y='no_validation', reset=True, copy=False, **kw):
+        npstubs.used('sklearn.BaseEstimator._validate_data (returns the float input, copied when copy=True)')
+        o = I2.O(obj)
+        if reset: o.attrs['n_features_in_'] = conc(I2.A(X).shape[1])
+        elif 'n_features_in_' in o.attrs:
+            if I2.branch(tz(o.attrs['n_features_in_']) != tz(I2.A(X).shape[1])): raise RaiseEx('ValueError')
+        if copy is True:
+            A = I2.A(X)
+            return I2.new_arr(ArrVal(A.shape, A.elem, A.sort, A.tag, False, A.vecs))
+        return X
+    return f
+
+def kernel_centerer_fit(I, me):
+    """sklearn.preprocessing.KernelCenterer.fit (assumed): K_fit_rows_ = column means, K_fit_all_ = overall mean (uniform weights)"""
+    def f(I2, K, y=None, **kw):
+        npstubs.used('sklearn KernelCenterer.fit (uniform column means and overall mean)')
+        o = I2.O(me)
+        rows = np_average(I2, K, axis=0)
+        o.attrs['K_fit_rows_'] = rows
+        o.attrs['K_fit_all_'] = np_average(I2, rows)
+        return me
+    return f
+
+def extend_ext(ext):
+    VL.install(ext); skstubs.install(ext)
+    if matmul_hook not in npstubs.MATMUL_HOOKS: npstubs.MATMUL_HOOKS.insert(0, matmul_hook)
+    ext['names']['sklearn.utils.validation._check_sample_weight'] = lambda I, w, X, **kw: w
+    ext['names']['sklearn.preprocessing._data.KernelCenterer'] = ExtClass('KernelCenterer')
+    ext['names']['sklearn.preprocessing.KernelCenterer'] = ExtClass('KernelCenterer')
+    np_ = ext['modules']['np']
+    np_.average = np_average; np_.trace = np_trace; np_.linalg.pinv = np_pinv
+    def np_sum(I, a, axis=None, **kw): return I.fresh('sum', RealS)
+    np_.sum = np_sum
+    ext['obj_attrs'] = dict(ext['obj_attrs']); ext['obj_attrs']['_validate_data'] = validate_data
+    ext['super_methods'] = dict(ext.get('super_methods', {})); ext['super_methods']['fit'] = kernel_centerer_fit
+    ext['super_methods']['__init__'] = lambda I, me: (lambda I2, *a, **k: None)
+
+def same_elems(A, B): return A is B or (A.elem is B.elem)
+
+def u_normalizer(wc, wt, weighted, copy=True):
+    def body(I):
+        n, nt = I.fresh('n_train', IntS), I.fresh('n_test', IntS); I.assume(And(n >= 1, nt >= 1))
+        I.use_axioms('gram', gram_axioms())
+        I.cur = dict(c12=True)
+        K = gram(I, TRAIN, TRAIN, (n, n)); K0 = I.A(K)
+        w = I.fresh_arr('w', (n,)) if weighted else None
+        cls = I.repo.get(KN)
+        me = I.instantiate(cls, [], dict(with_center=wc, with_trace=wt))
+        r = I.call_func(I.find_method(cls, 'fit'), [me, K], dict(sample_weight=w))
+        I.ob('post[C09]:fit-returns-self', BoolVal(isinstance(r, ObjRef) and r.id == me.id), kind='post')
+        I.ob('post[C12]:fit-leaves-the-kernel-handed-in-untouched', BoolVal(I.A(K) is K0), kind='post')
+        o = I.O(me)
+        tok = VL.weight_token(I, w)
+        mu = MEANV(tok, TRAIN)
+        phi = lambda i: PHI(TRAIN, i); psi = lambda t: PHI(TEST, t)
+        i, j = I.fresh('i', IntS), I.fresh('j', IntS); I.assume(And(0 <= i, i < n, 0 <= j, j < n))
+        I.ob('post[C12]:every-average-uses-the-given-weights', BoolVal(all(z3.eq(VL.weight_token(I, ww), tok) for (_, ww, _) in I.cur.get('avg_calls', []))), kind='post')
+        rows = I.A(o.attrs['K_fit_rows_'])
+        I.ob('post[C12]:column-offsets-are-the-inner-products-with-the-weighted-training-mean (or zero without centring)',
+             And(tz(rows.shape[0]) == n, rows.elem(j) == (dot(mu, phi(j)) if wc else RealVal(0))), kind='post')
+        I.ob('post[C12]:overall-offset-is-the-squared-norm-of-the-weighted-training-mean (or zero without centring)',
+             to_real(tz(o.attrs['K_fit_all_'])) == (dot(mu, mu) if wc else RealVal(0)), kind='post')
+        cen = (lambda a, b: dot(VSUB(a, mu), VSUB(b, mu))) if wc else (lambda a, b: dot(a, b))
+        sc = to_real(tz(o.attrs['scale_']))
+        if wt:
+            trs = I.cur.get('traces', [])
+            I.ob('post[C12]:scale-is-one-trace-divided-by-n', BoolVal(len(trs) == 1), kind='post')
+            if len(trs) == 1:
+                Atr, tr, _ = trs[0]
+                I.ob('post[C12]:scale-is-the-trace-of-the-centred-training-kernel-divided-by-n', And(sc * to_real(n) == tr, tz(Atr.shape[0]) == n, tz(Atr.shape[1]) == n), kind='post')
+                I.ob('post[C12]:...that-kernel-is-the-Gram-matrix-of-the-training-features-centred-by-the-weighted-training-mean', Atr.elem(i, j) == cen(phi(i), phi(j)), kind='post')
+                I.assume(tr > 0)         # a kernel with vanishing (centred) trace cannot be normalised (division by zero in transform): outside the property
+        else:
+            I.ob('post[C12]:without-trace-scaling-the-scale-is-one', sc == 1, kind='post')
+        # ---- transform of a test-train kernel
+        K2 = gram(I, TEST, TRAIN, (nt, n)); K20 = I.A(K2)
+        out = I.call_func(I.find_method(cls, 'transform'), [me, K2], dict(copy=copy))
+        O = I.A(out)
+        t = I.fresh('t', IntS); I.assume(And(0 <= t, t < nt))
+        I.ob('post[C12]:transform-keeps-the-shape', And(BoolVal(O.ndim == 2), tz(O.shape[0]) == nt, tz(O.shape[1]) == n), kind='post')
+        I.ob('post[C12]:test-train-kernel-becomes-the-Gram-matrix-of-test-and-training-features-centred-by-the-weighted-TRAINING-mean-divided-by-the-common-scale',
+             O.elem(t, j) * sc == cen(psi(t), phi(j)), kind='post')
+        I.ob('post[C12]:transform-averages-use-the-training-weights', BoolVal(all(z3.eq(VL.weight_token(I, ww), tok) for (_, ww, _) in I.cur.get('avg_calls', []))), kind='post')
+        if copy: I.ob('post[C12]:transform(copy=True)-leaves-the-kernel-handed-in-untouched', BoolVal(I.A(K2) is K20), kind='post')
+        # ---- transform of the training kernel itself: Gram matrix of the centred training features over the scale (hence trace n by linearity of the trace)
+        K3 = gram(I, TRAIN, TRAIN, (n, n))
+        O3 = I.A(I.call_func(I.find_method(cls, 'transform'), [me, K3], dict(copy=copy)))
+        I.ob('post[C12]:train-train-kernel-becomes-the-Gram-matrix-of-the-centred-training-features-divided-by-the-common-scale', O3.elem(i, j) * sc == cen(phi(i), phi(j)), kind='post')
+        o = I.O(me)
+        I.ob('post[C12]:transform-does-not-change-the-fitted-state', BoolVal(I.A(o.attrs['K_fit_rows_']) is rows), kind='post')
+    return Unit(f'KernelNormalizer[center={wc},trace={wt},{"weighted" if weighted else "unweighted"},copy={copy}]', body, functions=[KN + '.fit', KN + '.transform'])
+
+def u_sparse(wc, wt, weighted):
+    def body(I):
+        n, nt, a = I.fresh('n_train', IntS), I.fresh('n_test', IntS), I.fresh('n_active', IntS); I.assume(And(n >= 1, nt >= 1, a >= 1))
+        I.use_axioms('gram', gram_axioms() + [ForAll([Real('x!sq')], Implies(Real('x!sq') >= 0, And(npstubs.SQRT(Real('x!sq')) >= 0, npstubs.SQRT(Real('x!sq')) * npstubs.SQRT(Real('x!sq')) == Real('x!sq'))), patterns=[npstubs.SQRT(Real('x!sq'))])])
+        I.cur = dict(c12=True)
+        Knm = gram(I, TRAIN, ACTIVE, (n, a)); Knm0 = I.A(Knm)
+        Kmm = gram(I, ACTIVE, ACTIVE, (a, a)); Kmm0 = I.A(Kmm)
+        w = I.fresh_arr('w', (n,)) if weighted else None
+        rcond = I.fresh('rcond', RealS); I.assume(rcond > 0)
+        cls = I.repo.get(SK)
+        me = I.instantiate(cls, [], dict(with_center=wc, with_trace=wt, rcond=rcond))
+        r = I.call_func(I.find_method(cls, 'fit'), [me, Knm, Kmm], dict(sample_weight=w))
+        I.ob('post[C09]:fit-returns-self', BoolVal(isinstance(r, ObjRef) and r.id == me.id), kind='post')
+        I.ob('post[C12]:fit-leaves-both-kernels-untouched', BoolVal(I.A(Knm) is Knm0 and I.A(Kmm) is Kmm0), kind='post')
+        o = I.O(me)
+        tok = VL.weight_token(I, w)
+        mu = MEANV(tok, TRAIN)
+        phi = lambda i: PHI(TRAIN, i); psi = lambda t: PHI(TEST, t); act = lambda j: PHI(ACTIVE, j)
+        i, j = I.fresh('i', IntS), I.fresh('j', IntS); I.assume(And(0 <= i, i < n, 0 <= j, j < a))
+        I.ob('post[C12]:every-average-uses-the-given-weights-over-the-sample-axis', BoolVal(all(z3.eq(VL.weight_token(I, ww), tok) and ax == 0 for (_, ww, ax) in I.cur.get('avg_calls', []))), kind='post')
+        rows = I.A(o.attrs['K_fit_rows_'])
+        I.ob('post[C12]:column-offsets-are-the-inner-products-of-the-weighted-training-mean-with-the-active-features (or zero without centring)',
+             And(tz(rows.shape[0]) == a, rows.elem(j) == (dot(mu, act(j)) if wc else RealVal(0))), kind='post')
+        I.ob('post[C12]:active-set-size-recorded', tz(o.attrs['n_active_']) == a, kind='post')
+        cen = (lambda u, v: dot(VSUB(u, mu), v)) if wc else (lambda u, v: dot(u, v))
+        sc = to_real(tz(o.attrs['scale_']))
+        if wt:
+            trs = I.cur.get('traces', [])
+            ok = len(trs) == 1 and trs[0][0].tag is not None and trs[0][0].tag[0] == 'mm'
+            I.ob('post[C12]:scale-comes-from-one-trace-of-a-matrix-product', BoolVal(ok), kind='post')
+            if ok:
+                Atr, tr, _ = trs[0]
+                L, R = Atr.tag[1], Atr.tag[2]                    # (Kc @ pinv) @ Kc.T
+                ok2 = L.tag is not None and L.tag[0] == 'mm' and L.tag[2].tag is not None and L.tag[2].tag[0] == 'pinv'
+                I.ob('post[C12]:that-product-is-(centred-block)(pseudo-inverse)(centred-block-transposed)', BoolVal(ok2), kind='post')
+                if ok2:
+                    Kc, Pv = L.tag[1], L.tag[2]
+                    I.ob('post[C12]:Nystrom-kernel-uses-the-pseudo-inverse-of-the-active-kernel-with-the-configured-rcond',
+                         And(BoolVal(Pv.tag[1] is Kmm0), (to_real(tz(Pv.tag[2])) == rcond) if Pv.tag[2] is not None else BoolVal(False)), kind='post')
+                    I.ob('post[C12]:left-factor-is-the-training-block-centred-by-the-weighted-training-mean', And(tz(Kc.shape[0]) == n, tz(Kc.shape[1]) == a, Kc.elem(i, j) == cen(phi(i), act(j))), kind='post')
+                    I.ob('post[C12]:right-factor-is-its-transpose', And(tz(R.shape[0]) == a, tz(R.shape[1]) == n, R.elem(j, i) == cen(phi(i), act(j))), kind='post')
+                    I.ob('post[C12]:scale-squared-times-n-is-the-trace-of-the-centred-Nystrom-kernel', Implies(tr >= 0, sc * sc * to_real(n) == tr), kind='post')
+                    I.assume(tr > 0); I.assume(sc > 0)
+        else:
+            I.ob('post[C12]:without-trace-scaling-the-scale-is-one', sc == 1, kind='post')
+        K2 = gram(I, TEST, ACTIVE, (nt, a)); K20 = I.A(K2)
+        O = I.A(I.call_func(I.find_method(cls, 'transform'), [me, K2], {}))
+        t = I.fresh('t', IntS); I.assume(And(0 <= t, t < nt))
+        I.ob('post[C12]:transform-keeps-the-shape', And(BoolVal(O.ndim == 2), tz(O.shape[0]) == nt, tz(O.shape[1]) == a), kind='post')
+        I.ob('post[C12]:rectangular-kernel-becomes-the-inner-products-of-the-features-centred-by-the-weighted-TRAINING-mean-with-the-active-features-over-the-scale',
+             O.elem(t, j) * sc == cen(psi(t), act(j)), kind='post')
+        I.ob('post[C12]:transform-leaves-the-kernel-handed-in-untouched', BoolVal(I.A(K2) is K20), kind='post')
+        # wrong active-set size is rejected
+    return Unit(f'SparseKernelCenterer[center={wc},trace={wt},{"weighted" if weighted else "unweighted"}]', body, functions=[SK + '.fit', SK + '.transform'])
+
 UNITS = []
-TRUSTED = ["reference: explicit weighted moments / explicit feature-space computation with numpy"]
+for wc in (True, False):
+    for wt in (True, False):
+        for wgt in (True, False):
+            UNITS.append((lambda a, b, c: (lambda: u_normalizer(a, b, c)))(wc, wt, wgt))
+            UNITS.append((lambda a, b, c: (lambda: u_sparse(a, b, c)))(wc, wt, wgt))
+UNITS.append(lambda: u_normalizer(True, True, True, copy=False))
+RT = True
+TRUSTED = ["Gram layer: kernels are inner products of feature vectors (uninterpreted sort with a symmetric bilinear inner product); VSUB is linear in the inner product",
+           "external contract of np.average on a Gram matrix: the average over one index with weights w is the inner product with the weighted mean vector MEANV(w, family) "
+           "(definition of the weighted mean + bilinearity); weights are identified up to positive rescaling",
+           "sklearn KernelCenterer.fit (unweighted branch): K_fit_rows_ = uniform column means, K_fit_all_ = their mean; _validate_data returns the input (a copy when copy=True); _check_sample_weight returns the weights",
+           "np.trace / np.linalg.pinv / @ are recorded symbolically: the contract pins WHICH matrices enter; 'the transformed training kernel has trace n' then follows by linearity of the trace (not machine-checked here); kernels with non-positive centred trace are outside the property",
+           "fit_transform = fit followed by transform: only checked at run time (bounded)"]
